@@ -27,7 +27,12 @@ type lossyReport struct {
 }
 
 func regexpPattern(t *Term) (string, bool) {
-	// extract[0](call[regexp.Compile](const)) or call[regexp.MustCompile](const)
+	// extract[0](call[regexp.Compile](const)) or call[regexp.MustCompile](const), possibly via a package-level variable
+	if t.Op == "global" {
+		if it := globalInitTerm(t); it != nil {
+			t = it
+		}
+	}
 	if t.Op == "extract" && t.Name == "0" && len(t.Args) == 1 {
 		t = t.Args[0]
 	}
